@@ -113,6 +113,24 @@ def run(ctx):
                         ctx.fail("other-rows-depend-on-threshold", case, {"at_t": r, "at_0": r0})
                 if r["solved"] and not r0["solved"] and confirmed(inp, t, lambda x, y: x["solved"] and not y["solved"]):
                     ctx.fail("raising-threshold-solved-a-row", case, {})
+    # the scoring oracle's answer space: every score forced to 0.0 and to 1.0, at thresholds on both sides (a score of exactly 0 is still a
+    # score: it must be reported, compared and demoted like any other)
+    mcs_inputs = [i for i in inputs][:6]
+    for fc, t in ((0.0, 0.5), (0.0, 1.0), (0.0, 0.0), (1.0, 1.0), (1.0, 0.3)):
+        b = pipe.run_batch(mcs_inputs, t=t, force_conf=fc)
+        for inp, r in zip(b["inputs"], b["rows"]) if len(b["rows"]) == len(b["inputs"]) else []:
+            if r["solved_by"] != "mcs-based":
+                continue
+            ctx.evaluations += 1
+            ctx.count("forced", "score=%s t=%s" % (fc, t))
+            case = {"input": inp, "threshold": t, "forced_confidence": fc}
+            c = r["confidence"]
+            if c is None or abs(c - fc) > 1e-6:
+                ctx.fail("confidence-out-of-range", case, {"confidence": c, "forced": fc})
+            elif r["solved"] != (c >= t):
+                ctx.fail("threshold-not-exact", case, {"confidence": c, "solved": r["solved"], "issue": r["issue"]})
+            elif not r["solved"] and "{:.2%}".format(t) not in (r["issue"] or ""):
+                ctx.fail("issue-does-not-name-threshold", case, {"issue": r["issue"]})
     # the configuration matrix: every run carries its threshold; cached runs written under another threshold included
     import matrix
     conf_of = {}
